@@ -106,7 +106,7 @@ def mkpacket(lib, name, apid, flags, dlen):
 
 
 class Step(Harness):
-    kind = "induct12-step"
+    kind = "segments"       # counterexamples are replayed as a HISTORY that builds the state (stored groups) followed by the incoming packet
     validate = False
 
     def run(self, ctx):
@@ -114,7 +114,7 @@ class Step(Harness):
         # ---- arbitrary state: for each APID a stored group of 0..3 segments
         shape = ctx.choose("shape", 16)
         g0, g1 = shape % 4, shape // 4
-        s = ctx.choose("s", 4)
+        s = ctx.choose("s", 8)
         table, seqs = {}, {}
         for ai, n in ((0, g0), (1, g1)):
             if n:
@@ -183,7 +183,12 @@ class Step(Harness):
             for k, lst in want_table.items():
                 got = next((v for kk, v in table2.items() if (kk if isinstance(kk, int) else ctx.pick(kk.t)) == k), [])
                 obl.append((f"new table: group of APID {k} holds exactly the expected segments in order", len(got) == len(lst) and all(x is y for x, y in zip(got, lst))))
-        return result(f"{len(want_out)}out/{len(want_warn)}warn", obl, observe={}, inputs={})
+        hist = []
+        for k in sorted(before):
+            for raw in before[k]:
+                hist += list(raw.items)
+        hist += list(pkt.items)
+        return result(f"{len(want_out)}out/{len(want_warn)}warn", obl, observe={}, inputs={"stream": bv.SymBytes(hist), "s": s, "K": g0 + g1 + 1})
 
 
 def make(job):
